@@ -1999,6 +1999,7 @@ pub fn run(args: &Args, rep: &mut Report) {
     let mut reported: BTreeSet<String> = Default::default();
     let mut masks: BTreeSet<u64> = Default::default();
     for (label, ops) in todo {
+        mark_current(&case_lines(&ops));
         drv.begin_case();
         let res = eval_case(&ops, Some(&mut drv));
         let key = res.history.join("\n");
